@@ -18,8 +18,8 @@ FAMILY = ["C01", "C04", "C06", "C10", "C12", "C18"]
 
 TIERS = {
     # (profile, traces, steps)
-    "quick": [("mixed", 96, 45), ("failover", 48, 45), ("quorum", 24, 40)],
-    "thorough": [("mixed", 2400, 70), ("failover", 1200, 70), ("quorum", 400, 60)],
+    "quick": [("mixed", 96, 45), ("failover", 48, 45), ("quorum", 24, 40), ("scalein", 48, 40)],
+    "thorough": [("mixed", 2400, 70), ("failover", 1200, 70), ("quorum", 400, 60), ("scalein", 600, 60)],
 }
 
 RULES = {
